@@ -140,6 +140,17 @@ func contractLines(p *packages.Package, f *ast.File) ([]string, []int) {
 	return lines, nos
 }
 
+// resetSymbols gives every function its own symbol tables so that its queries do
+// not depend on which other functions were encoded in the same run.
+func (c *Ctx) resetSymbols() {
+	c.sorts = NewSorts()
+	c.ufDecls = map[string]string{}
+	c.ufOrder = nil
+	c.globals = map[string]int{}
+	c.globOrder = nil
+	c.opaque = map[string]int{}
+}
+
 func (c *Ctx) pkgByPath(path string) *types.Package {
 	if p, ok := c.allPkgs[path]; ok {
 		return p.Types
